@@ -1,6 +1,6 @@
 import os, re, sys, time, subprocess
 HERE = os.path.dirname(os.path.dirname(os.path.abspath(__file__)))
-sys.path.insert(0, os.path.join(HERE, 'lib'))
+sys.path.insert(0, os.path.join(HERE, 'lib')); sys.path.insert(0, HERE)
 import vrun
 
 META = dict(
@@ -33,9 +33,65 @@ def gen_terminals(spec, work, work_root):
     spec['bounds'] = 'all %d parser states x %d emitted line kinds (+ end of input): exhaustive over the compiled tables; never-emitted kinds: %s' % (
         47, len(kinds), sorted(names - set(kinds)))
 
+# token kinds that can never be handed to a writer, with the reason (checked by other obligations where noted)
+NEVER_EXPORTED = {
+    'BLOCK_DEF_ABBREVIATION': 'process_definition_block retypes every definition block to BLOCK_EMPTY before export',
+    'BLOCK_DEF_CITATION': 'process_definition_block retypes every definition block to BLOCK_EMPTY before export',
+    'BLOCK_DEF_GLOSSARY': 'process_definition_block retypes every definition block to BLOCK_EMPTY before export',
+    'BLOCK_DEF_FOOTNOTE': 'process_definition_block retypes every definition block to BLOCK_EMPTY before export',
+    'BLOCK_DEF_LINK': 'process_definition_block retypes every definition block to BLOCK_EMPTY before export',
+    'CODE_FENCE_LINE': 'only ever a child of BLOCK_CODE_FENCED, whose children are rendered by the raw exporter (the html writer also lists it; latex/odf do not)',
+    'TEXT_NL_SP': 'split into TEXT_NL + whitespace by mmd.c while the block is tokenised (never survives into the tree)',
+    'TEXT_LINEBREAK_SP': 'split into TEXT_LINEBREAK + whitespace by mmd.c while the block is tokenised',
+}
+WRITER_FILES = {'html.c', 'latex.c', 'beamer.c', 'memoir.c', 'opendocument-content.c', 'opendocument.c', 'opml.c', 'itmz.c', 'epub.c', 'textbundle.c'}
+
+def never_created():
+    """token kinds that no non-writer source file ever mentions (so no token of that kind can exist), and pair kinds whose pairing rule
+    does not prune (a non-pruning pairing only mates the delimiters, it never creates a container token): derived from the current sources"""
+    hdr = open(os.path.join(vrun.SRC, 'libMultiMarkdown.h')).read()
+    m = re.search(r'enum token_types \{(.*?)\};', hdr, re.S)
+    body = re.sub(r'//[^\n]*', '', m.group(1)); body = re.sub(r'/\*.*?\*/', '', body, flags=re.S)
+    names = [x.split('=')[0].strip() for x in body.split(',') if x.strip()]
+    text = ''
+    for f in sorted(os.listdir(vrun.SRC)):
+        if (f.endswith('.c') or f.endswith('.y') or f.endswith('.re')) and f not in WRITER_FILES:
+            text += open(os.path.join(vrun.SRC, f), errors='replace').read()
+    words = set(re.findall(r'\b[A-Z][A-Z0-9_]+\b', text))
+    never = {n for n in names if n not in words}
+    mmd = open(os.path.join(vrun.SRC, 'mmd.c')).read()
+    pruned, unpruned = set(), set()
+    for mm in re.finditer(r'token_pair_engine_add_pairing\(([^;]*)\);', mmd):
+        a = [x.strip() for x in mm.group(1).split(',')]
+        (pruned if 'PAIRING_PRUNE_MATCH' in a[4] else unpruned).add(a[3])
+    never |= (unpruned - pruned)
+    return never
+
+WRITERS = [
+    ('html', 'repo:html.c', 'mmd_export_token_html', ['mmd_export_token_tree_html', 'mmd_export_token_tree_html_raw', 'mmd_export_token_tree_html_math']),
+    ('latex', 'repo:latex.c', 'mmd_export_token_latex', ['mmd_export_token_tree_latex', 'mmd_export_token_tree_latex_raw', 'mmd_export_token_tree_latex_tt']),
+    ('opendocument', 'repo:opendocument-content.c', 'mmd_export_token_opendocument', ['mmd_export_token_tree_opendocument', 'mmd_export_token_tree_opendocument_raw', 'mmd_export_token_tree_opendocument_math']),
+]
+
+def gen_dispatch(spec, work, work_root):
+    from checks import C15
+    C15.gen_enum_list(spec, work, work_root)
+    never = sorted(set(NEVER_EXPORTED) | never_created())
+    with open(os.path.join(work, 'never_exported.h'), 'w') as f:
+        f.write('static const int NEVER[] = {%s};\n#define N_NEVER %d\n' % (', '.join(never + ['-1']), len(never) + 1))
+    spec['unwind'] = 12
+    spec['unwindset'] = ['main.0:%d' % (len(never) + 4)]
+    spec['bounds'] = 'every published token kind except %s; children fixed (text, newline, text); all extension sets' % never
+
 def harnesses(tier):
     hs = [dict(name='c02_automaton_total', src='c02/automaton.c', prepare=gen_terminals, unwind=12, timeout=300, mem_gb=4,
                desc='yy_find_shift_action never returns YY_ERROR_ACTION for any state x emitted line kind; goto lookups in range')]
+    for nm, unit, fn, trees in WRITERS:
+        d = dict(EXPORT=fn, TREE1=trees[0], TREE2=trees[1], TREE3=trees[2], DS_CAP=8)
+        hs.append(dict(name='c02_dispatch_' + nm, src='c02/dispatch.c', defs=d, prepare=gen_dispatch, pool_off=True,
+                       units=[dict(src=unit, cflags=['-Dexit=verif_exit', '-Dfprintf=verif_fprintf'], remove=trees), 'repo:token.c', 'repo:stack.c', 'repo:object_pool.c', 'repo:char.c', 'common/ds_null.c'],
+                       nobody_ok='*', ignore_failed=['precondition_instance', 'no-body'], unwinding_assertions=False, object_bits=12, timeout=1500, mem_gb=8, functional=True, replay=False,
+                       desc='%s: no published token kind reaches the unknown-token escape or exit()' % fn))
     return hs
 
 def stack_ranking(tier):
